@@ -9,9 +9,9 @@
   An error does NOT unwind the close stack on its way up: the values stay on the stack until the
   CallContext that catches the error cleans up.  Structured exits (`brk`, `jump`) close nothing.
     * coroutine.close of a suspended coroutine: the pending yield panics with `threadClose`; every
-      CallContext on the way (pcall) recovers, TRUNCATES the close stack to its entry size without
-      calling anything ("No resources to run that, so just discard it") and re-panics; Thread.Start's
-      deferred function calls Thread.end → cleanupCloseStack(nil, 0, nil)       (thread.go)
+      CallContext on the way (pcall) recovers and re-panics, leaving the close stack alone (it is
+      truncated only for a ContextTerminationError, /repo 3e9e50b); Thread.Start's deferred function
+      calls Thread.end → cleanupCloseStack(nil, 0, nil)                         (thread.go)
 -/
 import GoluaVerif.Model.TbcCompile
 namespace GoluaVerif.Model.Tbc
@@ -84,14 +84,24 @@ def vexec (hd : Handlers) (kill : Bool) : Code → (base : Nat) → List TV → 
     let r := vexec hd kill c st.length st
     match r.exit with
     | .kill e =>
-      -- the deferred function of CallContext: t.closeStack.truncate(h); panic(r)
-      ⟨.kill e, r.stack.drop (r.stack.length - st.length), r.log⟩
+      -- the deferred function of CallContext: not a ContextTerminationError → panic(r), stack untouched
+      ⟨.kill e, r.stack, r.log⟩
     | x =>
       let cl := cleanup hd r.stack st.length x.errArg
       ⟨.normal, cl.2.1, r.log ++ cl.2.2 ++ [.caught cl.1]⟩
   | .call c, _, st =>
     let r := vexec hd kill c st.length st
     ⟨r.exit.leaveFunction, r.stack, r.log⟩
+  | .tailcall c, base, st =>
+    -- OpCall with isTail: "As we're leaving this continuation for good, perform all the pending close
+    -- actions" FIRST (cleanupCloseStack(c, closeStackBase, nil)), then run the called function, whose
+    -- continuation was created before (closeStackBase = the stack size then); its return is ours
+    let cl := cleanup hd st base none
+    match cl.1 with
+    | some e => ⟨.err e, cl.2.1, cl.2.2⟩
+    | none =>
+      let r := vexec hd kill c st.length cl.2.1
+      ⟨r.exit.leaveFunction.thenReturn, r.stack, cl.2.2 ++ r.log⟩
   | .yield, _, st => ⟨if kill then .kill none else .normal, st, []⟩
 
 /-- the events of running the compiled chunk under pcall on an empty close stack -/
